@@ -376,7 +376,8 @@ def _explore(first):
         allowed = None
         if depth >= 3:
             core = _STATE['core']
-            allowed = lambda prefix: core if len(prefix) + 1 < depth else range(len(_STATE['ops']))
+            # every ordered pair; a third operation (any) after every pair over the core of state-changing operations
+            allowed = lambda prefix: range(len(_STATE['ops'])) if len(prefix) == 1 or all(p in core for p in prefix) else ()
             if first not in core:
                 return out + snap.dfs(apply, len(_STATE['ops']), 1, (first,), None, None)
         out += snap.dfs(apply, len(_STATE['ops']), depth - 1, (first,), allowed, None)
@@ -433,7 +434,7 @@ def run(ctx):
               'beartype\'s memo tables (equal-but-distinct hints, Literal[1]/Literal[True] and both member orders, IsEqual[1]/[True]/[1.0], '
               'two classes and two TypeVars with identical repr, unhashable hints, forward references that fail first, the same annotation '
               'text resolved in two scopes, same-named @beartype class redefinition once and twice, id() reuse after gc, clear_caches); '
-              + ('for depth 3 the first two operations range over a core of state-changing operations; ' if depth == 3 else '')
+              + ('every ordered pair, and every third operation after every pair over a core of state-changing operations; ' if depth == 3 else '')
               + 'each node is a real process state reached by forking; the last operation\'s observation (verdicts for two draws, exception '
               'classes, culprit shape, identities) must equal its observation in a fresh process.  distinct_nontrivial = nodes with a '
               'non-empty history.'),
